@@ -123,6 +123,13 @@ def scenario(sh: Shard, seed, idx, tier):
     if kind in ("blackout-near-tick", "lossy-connect-then-long-blackout", "active-blackout"):
         snapshot = "inYT-Pump1Hi-2020-12-13 11_19_35.snapshot"
     mw = ManWorld(r, regime, suspend=suspend, snapshot=snapshot, max_iter=20_000_000, wall_cap=900)
+    if kind in ("blackout-connected", "active-blackout", "rferr") and r.random() < 0.35:
+        # a client whose handler is slow on ONE event only - the disconnect announcement (tearing a UI
+        # down takes a moment) - and instant on all others
+        mw.suspend_mode = r.choice(["seconds", "seconds", "tick"])
+        mw.suspend_events = {"RUNNING_SPA_DISCONNECTED"}
+        suspend = mw.suspend_mode + ":only-RUNNING_SPA_DISCONNECTED"
+        sh.count("scenarios_with_a_handler_slow_on_the_disconnect_announcement_only")
     out = {}
     try:
         Man = make_manager_class()
@@ -293,6 +300,11 @@ def scenario(sh: Shard, seed, idx, tier):
                 key = "C09:terminal:ERROR_SPA_NOT_FOUND"
             elif interleaved:
                 key = "C09:stranded:pump-interleaved-reset"
+                if getattr(mw, "suspend_events", None) == {"RUNNING_SPA_DISCONNECTED"}:
+                    # the recorded finding needs a handler suspended on the facade-teardown announcement
+                    # (state already IDLE while the reset is still under way); with a client that is slow on
+                    # the disconnect announcement only, the unchanged tree recovers - a different outcome
+                    key += ":handler-slow-on-the-disconnect-announcement-only"
             else:
                 key = f"C09:not-recovered:{fs}"
             if fs == "CONNECTED":
